@@ -60,7 +60,7 @@ def loop_array(fn, blk, deps, an):
             continue
         nxt_blocks = [x for x in body if (fn.blocks[x]['term'].get('callee') or '').endswith('Iterator::next')]
         for b, t in fn.calls():
-            if (t.get('callee') or '').endswith('IntoIterator::into_iter') and b not in body:
+            if (t.get('callee') or '').endswith(('IntoIterator::into_iter', '[T]::iter', '[T]::iter_mut')) and b not in body:
                 # the iterator that drives this loop: its next() is called in the body on this iterator
                 p = op_place(t['args'][0])
                 if p is None:
